@@ -226,7 +226,18 @@ fn ask(addr: SocketAddr, method: &str, host: Option<&str>, path: &str, query: Op
         req.push_str(&format!("Upgrade: websocket\r\nConnection: {}\r\nSec-WebSocket-Key: aGVsbG8=\r\n", conn));
     }
     req.push_str("\r\n");
-    c.send(req.as_bytes(), &[], 0).map_err(|e| e.to_string())?;
+    // every other head that contains a multi-byte character is written in two segments, cut INSIDE the first such
+    // character, a few milliseconds apart: the route and host chosen must not depend on where TCP cut the bytes
+    // (seeded C05-K)
+    match req.as_bytes().iter().position(|b| *b >= 0x80) {
+        Some(i) if fnv(req.as_bytes()) % 2 == 0 => {
+            use std::io::Write;
+            c.s.write_all(&req.as_bytes()[..i + 1]).map_err(|e| e.to_string())?;
+            std::thread::sleep(Duration::from_millis(4));
+            c.s.write_all(&req.as_bytes()[i + 1..]).map_err(|e| e.to_string())?;
+        }
+        _ => c.send(req.as_bytes(), &[], 0).map_err(|e| e.to_string())?,
+    }
     if ws {
         // the websocket handlers of the lab write their identity and return; no match = EOF with zero bytes
         c.wait_closed(Duration::from_secs(10));
